@@ -1173,7 +1173,7 @@ def hoist_value_helpers(fn, find_method, max_body=12):
     return set_parents(fn)
 
 
-def record_bindings(fn, find_method=None, find_function=None, record_classes=None):
+def record_bindings(fn, find_method=None, find_function=None, record_classes=None, find_property=None):
     """{local: (record ClassDef, {field: expression})} for `x = self.<helper>(args)` / `x = helper(args)` / `x = R(…)` bound
     once in fn, the helper being straight-line and returning one record construction `R(e1, e2, …)` of a NamedTuple /
     dataclass of the module (record_classes: name -> ClassDef); the field expressions are in fn's own terms"""
@@ -1199,6 +1199,16 @@ def record_bindings(fn, find_method=None, find_function=None, record_classes=Non
     for name, v in sa.items():
         val = v
         via = None
+        if isinstance(v, ast.Attribute) and find_property is not None and isinstance(v.ctx, ast.Load):
+            # `x = obj.<property>` of the one class of the package that has a property of that name: its returned
+            # expression, `self` standing for obj
+            hp = find_property(v.attr)
+            if hp is not None and hp.args.args:
+                fake = ast.Call(func=ast.Name(id=hp.name, ctx=ast.Load()), args=[], keywords=[])
+                pv = straightline_value(fake, None, lambda nm, _h=hp: _h if nm == _h.name else None)
+                if pv is not None:
+                    val = substitute(pv, {hp.args.args[0].arg: v.value})
+                    via = hp
         if isinstance(v, ast.Call) and not (isinstance(v.func, ast.Name) and v.func.id in record_classes):
             val = straightline_value(v, find_method, find_function)
             via = _helper_of_call(v, find_method, find_function)
@@ -1293,11 +1303,11 @@ def split_record_arms(fn, record_classes):
     return set_parents(out)
 
 
-def expand_records(fn, find_method=None, find_function=None, record_classes=None):
+def expand_records(fn, find_method=None, find_function=None, record_classes=None, find_property=None):
     """Copy of fn (nodes traceable through `_origin`) where the uses of a record built by a straight-line helper read as
     what they stand for: `x.field` is the field's expression, `x.prop` / `x.method(args)` the single expression the
     property / method of the record class returns, with `self.<field>` replaced by the fields' expressions"""
-    binds = record_bindings(fn, find_method, find_function, record_classes)
+    binds = record_bindings(fn, find_method, find_function, record_classes, find_property)
     out = clone_with_origin(fn)
     if not binds:
         return set_parents(out)
